@@ -12,7 +12,7 @@
     listed holders' reservations, the list is duplicate-free, a blacklisted participant is not listed
     and an unlisted participant reserves nothing ([C12_counter_is_sum]). *)
 From LP Require Import Proofs.Tactics Proofs.Loop Proofs.Shuffle Proofs.Gates Proofs.Frames Proofs.Settle Proofs.Reserve Proofs.GenTable
-  Proofs.GuaranteedLoop Proofs.Leftover Proofs.Examples Proofs.SetupGt Proofs.SetupVested.
+  Proofs.GuaranteedLoop Proofs.Leftover Proofs.Examples Proofs.Resume Proofs.Filter Proofs.Select Proofs.SetupGt Proofs.SetupVested.
 Open Scope N_scope.
 
 Theorem C12_add_v1 : forall e w l w',
@@ -87,6 +87,23 @@ Theorem C12_counter_is_sum : forall (H : list N -> list N) v w, guar v -> setup_
   (forall u, blacklisted s u = true -> range s u <> None /\ ~ In u (gt_users s)).
 Proof. intros H v w Hv Hr. exact (lp_res _ _ (setup_reach_gt_LpInv H v w Hv Hr)). Qed.
 
+(** the last sentence of the property, from deployment: whatever the set-up history (allocations,
+    blacklisting, un-blacklisting, ...) and the interruption schedule of the three stages, the final
+    number of winners - reported and marked - is min(winners configured at deployment, confirmed
+    tickets) *)
+Theorem C12_final_from_deployment : forall (H : list N -> list N) v w0 lf wf ef bf w1 ls ws es bs w2 sd rest ld wd ed bd w3,
+  guar v -> setup_reach_gt H v w0 ->
+  after_interrupted filter_tickets lf w0 = Some wf -> filter_tickets ef bf wf = Ok (w1, 0) ->
+  seeds w1 = sd :: rest ->
+  after_interrupted (select_winners H) ls w1 = Some ws -> select_winners H es bs ws = Ok (w2, 0) ->
+  after_interrupted (distribute_guaranteed_tickets H (vflag v)) ld w2 = Some wd ->
+  distribute_guaranteed_tickets H (vflag v) ed bd wd = Ok (w3, 0) ->
+  exists e lp tpt0 ptok price0 nrw conf wsr claim x s (l : list (N * N)),
+    deploy v e lp tpt0 ptok price0 nrw conf wsr claim x = Ok s /\
+    nr_winning (st w3) = N.min nrw (sumN (map (confirmed (st w0)) (map fst l))) /\
+    count_winning (st w3) (range_ids 1 (sumN (map (confirmed (st w0)) (map fst l)))) = nr_winning (st w3).
+Proof. exact deployed_final_winners. Qed.
+
 Example C12_nonvacuous :
   match deploy Gt1 (mkenv 1 0 0 []) 1 100 0 1000 2 10 20 30 x0 with
   | Ok s0 =>
@@ -112,6 +129,7 @@ Print Assumptions C12_unblacklist_v2_no_panic.
 Print Assumptions C12_deposit_size.
 Print Assumptions C12_total_from_deployment.
 Print Assumptions C12_counter_is_sum.
+Print Assumptions C12_final_from_deployment.
 Print Assumptions C12_release_profiles.
 Print Assumptions C12_pool.
 Print Assumptions C12_nonvacuous.
